@@ -10,6 +10,8 @@
 //!
 //!   transport replay <scenarios.ndjson> <trace.ndjson>   execute behaviours exported by TLC
 //!   transport random <trace.ndjson> <steps>              seeded random driver (VERIF_SEED)
+#[cfg(feature = "async")]
+mod asyncops;
 mod fvs;
 mod obs;
 
@@ -30,6 +32,11 @@ use vm_memory::bitmap::{AtomicBitmap, Bitmap, BitmapSlice};
 use vm_memory::{ByteValued, GuestAddress, GuestMemory, GuestMemoryMmap, GuestMemoryRegion};
 
 pub const PAGE: u64 = 4096;
+/// replay/random drive the async entry points where they exist (commands replay-async / random-async)
+static ASYNC_MODE: std::sync::atomic::AtomicBool = std::sync::atomic::AtomicBool::new(false);
+fn async_mode() -> bool {
+    ASYNC_MODE.load(std::sync::atomic::Ordering::Relaxed)
+}
 const QSIZE: usize = 0x10000; // region 0 holds the virtqueue only and is never observed
 
 // ------------------------------------------------------------------------------------------------
@@ -196,14 +203,14 @@ macro_rules! obj_sizes {
 }
 
 pub struct OpRes {
-    res: &'static str,
-    ret: Option<u64>,
-    err: Option<String>,
-    out: Option<Vec<u8>>,
-    real_op: String,
+    pub res: &'static str,
+    pub ret: Option<u64>,
+    pub err: Option<String>,
+    pub out: Option<Vec<u8>>,
+    pub real_op: String,
 }
 
-fn fold<T>(r: std::thread::Result<io::Result<T>>, f: impl FnOnce(T) -> Option<u64>) -> (&'static str, Option<u64>, Option<String>) {
+pub fn fold<T>(r: std::thread::Result<io::Result<T>>, f: impl FnOnce(T) -> Option<u64>) -> (&'static str, Option<u64>, Option<String>) {
     match r {
         Err(_) => ("panic", None, None),
         Ok(Err(e)) => ("err", None, Some(format!("{:?}", e.kind()))),
@@ -275,6 +282,8 @@ fn exec_reader<S: BitmapSlice>(r: &mut Reader<'_, S>, op: &Op, files: &mut Files
             };
             fold(q, |_| None)
         }
+        #[cfg(feature = "async")]
+        "async_read_to_at" => asyncops::reader_op(r, op, files),
         other => panic!("harness: unknown reader op {}", other),
     };
     OpRes { res, ret, err, out, real_op }
@@ -340,9 +349,26 @@ fn exec_writer<'a, S: BitmapSlice>(w: &mut Writer<'a, S>, other: Option<&Writer<
             fold(q, |_| None)
         }
         "commit" => fold(catch_unwind(AssertUnwindSafe(|| w.commit(other))), |k| Some(k as u64)),
+        #[cfg(feature = "async")]
+        name if name.starts_with("async_") => asyncops::writer_op(w, other, op, &data, files),
         other => panic!("harness: unknown writer op {}", other),
     };
     OpRes { res, ret, err, out: None, real_op }
+}
+
+/// lengths of the slices a memory-sourced write operation offers (None: not such an operation)
+pub fn data_slices(op: &Op) -> Option<Vec<usize>> {
+    let n1 = (op.x as usize).min(op.n);
+    match op.op.as_str() {
+        "write" | "write_all" | "write_obj" | "async_write" | "async_write_all" => Some(vec![op.n]),
+        "write_vectored" => Some(vec![n1, 0, op.n - n1]),
+        "async_write2" => Some(vec![n1, op.n - n1]),
+        "async_write3" => {
+            let n2 = (op.n - n1) / 2;
+            Some(vec![n1, n2, op.n - n1 - n2])
+        }
+        _ => None,
+    }
 }
 
 pub trait Env {
@@ -379,9 +405,19 @@ fn run_ops<'a, S: BitmapSlice>(
             None => break,
         };
         i += 1;
-        let idx = op.o - 1;
+        let idx = op.o.wrapping_sub(1);
         let mut new_id: Option<usize> = None;
-        let r: OpRes = if op.op == "split_at" {
+        // the scenario may name an object that does not exist because an earlier split_at did not do what the
+        // model said: that is an observation ("noobj"), not a reason to stop
+        let other_missing = (op.op == "commit" || op.op == "async_commit") && op.n != 0 && (op.n > objs.len() || op.n == op.o);
+        let kind_mismatch = idx < objs.len()
+            && match &objs[idx] {
+                Obj::R(_) => op.op.contains("write") || op.op.contains("commit"),
+                Obj::W(..) => op.op.contains("read"),
+            };
+        let r: OpRes = if idx >= objs.len() || other_missing || kind_mismatch {
+            OpRes { res: "noobj", ret: None, err: None, out: None, real_op: op.op.clone() }
+        } else if op.op == "split_at" {
             let q = match &mut objs[idx] {
                 Obj::R(r) => catch_unwind(AssertUnwindSafe(|| r.split_at(op.n).map(Obj::R))),
                 Obj::W(w, _) => catch_unwind(AssertUnwindSafe(|| w.split_at(op.n).map(|c| Obj::W(c, true)))),
@@ -398,7 +434,7 @@ fn run_ops<'a, S: BitmapSlice>(
                     OpRes { res: "ok", ret: None, err: None, out: None, real_op: op.op.clone() }
                 }
             }
-        } else if op.op == "commit" {
+        } else if op.op == "commit" || op.op == "async_commit" {
             let j = op.n; // 0 = None
             if j == 0 {
                 match &mut objs[idx] {
@@ -450,13 +486,13 @@ fn run_ops<'a, S: BitmapSlice>(
         if let Some(b) = &r.out {
             ev.insert("out".into(), ramps(b));
         }
-        if op.op.starts_with("write") && !op.op.contains("from") {
-            let n1 = if op.op == "write_vectored" { (op.x as usize).min(op.n) } else { op.n };
+        if let Some(sl) = data_slices(&op) {
             // the data offered, slice by slice (ramps continue across the slices)
-            let mut d = vec![json!([op.v, n1])];
-            if op.op == "write_vectored" {
-                d.push(json!([0, 0]));
-                d.push(json!([(op.v as usize + n1) % M as usize, op.n - n1]));
+            let mut d = Vec::new();
+            let mut at = 0usize;
+            for l in sl {
+                d.push(json!([(op.v as usize + at) % M as usize, l]));
+                at += l;
             }
             ev.insert("data".into(), Value::Array(d));
         }
@@ -471,7 +507,7 @@ fn run_ops<'a, S: BitmapSlice>(
             ev.insert("msgs".into(), m);
         }
         ev.insert("fpos".into(), json!(files.src.pos()));
-        if r.real_op.starts_with("read_to") || r.real_op == "read_exact_to" {
+        if r.real_op.starts_with("read_to") || r.real_op == "read_exact_to" || r.real_op == "async_read_to_at" {
             let (d, size) = files.sink.diff();
             ev.insert("fdiff".into(), d);
             ev.insert("spos".into(), json!(files.sink.pos()));
@@ -562,12 +598,26 @@ fn run_virtio(sc: &Scn, src: &mut dyn OpSource, tr: &mut Trace, seg: u64) -> usi
         .map(|s| RawDescriptor::from(SplitDescriptor::new(s.0, s.1 as u32, if s.2 { 2 } else { 0 }, 0)))
         .collect();
     let chain = q.build_desc_chain(&descs).expect("descriptor chain");
-    let reader = Reader::from_descriptor_chain(&mem, chain.clone()).expect("Reader::from_descriptor_chain");
-    let writer = VirtioFsWriter::new(&mem, chain).expect("VirtioFsWriter::new");
-    let mut objs = vec![Obj::R(reader), Obj::W(Writer::VirtioFs(writer), false)];
+    let reader = catch_unwind(AssertUnwindSafe(|| Reader::from_descriptor_chain(&mem, chain.clone())));
+    let writer = catch_unwind(AssertUnwindSafe(|| VirtioFsWriter::new(&mem, chain.clone())));
     let mut env = VirtioEnv { mem: &mem, arena };
     let mut files = Files::new(sc);
     tr.emit(&reset_event(sc, seg, Some(env.dirty())));
+    let (reader, writer) = match (reader, writer) {
+        (Ok(Ok(r)), Ok(Ok(w))) => (r, w),
+        (r, w) => {
+            // a constructor that fails on a well-formed chain inside mapped memory is a result to be judged
+            let d = |x: &str| x.chars().take(60).collect::<String>();
+            let rs = match &r { Ok(Ok(_)) => ("ok", String::new()), Ok(Err(e)) => ("err", d(&format!("{:?}", e))), Err(_) => ("panic", String::new()) };
+            let ws = match &w { Ok(Ok(_)) => ("ok", String::new()), Ok(Err(e)) => ("err", d(&format!("{:?}", e))), Err(_) => ("panic", String::new()) };
+            tr.emit(&json!({"e":"New","seg":seg,"o":1,"what":"Reader::from_descriptor_chain","res":rs.0,"err":rs.1}));
+            tr.emit(&json!({"e":"New","seg":seg,"o":2,"what":"VirtioFsWriter::new","res":ws.0,"err":ws.1}));
+            tr.emit(&json!({"e":"End","seg":seg,"diff":env.arena.diff(),"canary":env.arena.canary_ok,"dirty":env.dirty()}));
+            tr.flush();
+            return 0;
+        }
+    };
+    let mut objs = vec![Obj::R(reader), Obj::W(Writer::VirtioFs(writer), false)];
     let n = run_ops(&mut objs, &mut env, &mut files, sc, src, tr, seg);
     drop(objs); // the reply is complete
     tr.emit(&json!({"e":"End","seg":seg,"diff":env.arena.diff(),"canary":env.arena.canary_ok,"dirty":env.dirty()}));
@@ -581,10 +631,30 @@ struct FuseEnv {
     arena: Arena,
     rx: RawFd,
     rbuf: Vec<u8>,
+    append: bool,
+    seen: usize,
+}
+fn append_memfd() -> (RawFd, RawFd) {
+    let fd = unsafe { libc::memfd_create(b"fusedev\0".as_ptr() as *const libc::c_char, 0) };
+    assert!(fd >= 0);
+    unsafe { libc::fcntl(fd, libc::F_SETFL, libc::O_APPEND) };
+    let rd = unsafe { libc::dup(fd) };
+    (fd, rd)
 }
 impl Env for FuseEnv {
     fn observe(&mut self) -> (Option<Value>, Option<Value>) {
         let mut msgs = Vec::new();
+        if self.append {
+            let size = unsafe { libc::lseek(self.rx, 0, libc::SEEK_END) } as usize;
+            if size > self.seen {
+                let mut b = vec![0u8; size - self.seen];
+                let r = unsafe { libc::pread(self.rx, b.as_mut_ptr() as *mut libc::c_void, b.len(), self.seen as i64) };
+                b.truncate(r.max(0) as usize);
+                msgs.push(ramps(&b));
+                self.seen = size;
+            }
+            return (None, Some(Value::Array(msgs)));
+        }
         loop {
             let r = unsafe { libc::recv(self.rx, self.rbuf.as_mut_ptr() as *mut libc::c_void, self.rbuf.len(), libc::MSG_DONTWAIT) };
             if r < 0 {
@@ -620,15 +690,30 @@ fn run_fusedev(sc: &Scn, src: &mut dyn OpSource, tr: &mut Trace, seg: u64) -> us
     let rs = sc.segs.iter().find(|s| !s.2).expect("request buffer");
     let ws = sc.segs.iter().find(|s| s.2).expect("reply buffer");
     // the two buffers are disjoint parts of the arena; the arena itself is only read for diffs
-    let rbuf: &mut [u8] = unsafe { std::slice::from_raw_parts_mut(ptr.add((rs.0 - base) as usize), rs.1) };
-    let wbuf: &mut [u8] = unsafe { std::slice::from_raw_parts_mut(ptr.add((ws.0 - base) as usize), ws.1) };
-    let (tx, rx) = seqpacket_pair();
-    let reader = Reader::<()>::from_fuse_buffer(FuseBuf::new(rbuf)).expect("from_fuse_buffer");
-    let writer = FuseDevWriter::<()>::new(tx, wbuf).expect("FuseDevWriter::new");
-    let mut objs = vec![Obj::R(reader), Obj::W(Writer::FuseDev(writer), false)];
-    let mut env = FuseEnv { arena, rx, rbuf: vec![0u8; 4 << 20] };
+    let rbuf: &'static mut [u8] = unsafe { std::slice::from_raw_parts_mut(ptr.add((rs.0 - base) as usize), rs.1) };
+    let wbuf: &'static mut [u8] = unsafe { std::slice::from_raw_parts_mut(ptr.add((ws.0 - base) as usize), ws.1) };
+    // device: a SEQPACKET pair keeps message boundaries; the async entry points use pwrite(2), which a socket
+    // refuses, so the async build uses an append-only memfd (every write appends; one message per operation)
+    let appendfd = cfg!(feature = "async");
+    let (tx, rx) = if appendfd { append_memfd() } else { seqpacket_pair() };
+    let (mut rb, mut wb) = (Some(rbuf), Some(wbuf));
+    let reader = catch_unwind(AssertUnwindSafe(|| Reader::<()>::from_fuse_buffer(FuseBuf::new(rb.take().unwrap()))));
+    let writer = catch_unwind(AssertUnwindSafe(|| FuseDevWriter::<()>::new(tx, wb.take().unwrap())));
+    let mut env = FuseEnv { arena, rx, rbuf: vec![0u8; 4 << 20], append: appendfd, seen: 0 };
     let mut files = Files::new(sc);
     tr.emit(&reset_event(sc, seg, None));
+    let (reader, writer) = match (reader, writer) {
+        (Ok(Ok(r)), Ok(Ok(w))) => (r, w),
+        (r, w) => {
+            let ok = |b: bool| if b { "ok" } else { "err" };
+            tr.emit(&json!({"e":"New","seg":seg,"o":1,"what":"Reader::from_fuse_buffer","res":ok(matches!(r, Ok(Ok(_)))),"err":""}));
+            tr.emit(&json!({"e":"New","seg":seg,"o":2,"what":"FuseDevWriter::new","res":ok(matches!(w, Ok(Ok(_)))),"err":""}));
+            tr.emit(&json!({"e":"End","seg":seg,"diff":env.arena.diff(),"canary":env.arena.canary_ok,"msgs":[]}));
+            tr.flush();
+            return 0;
+        }
+    };
+    let mut objs = vec![Obj::R(reader), Obj::W(Writer::FuseDev(writer), false)];
     let n = run_ops(&mut objs, &mut env, &mut files, sc, src, tr, seg);
     drop(objs);
     let (_, msgs) = env.observe();
@@ -642,10 +727,19 @@ fn run_fusedev(sc: &Scn, src: &mut dyn OpSource, tr: &mut Trace, seg: u64) -> us
 }
 
 fn run_scn(sc: &Scn, src: &mut dyn OpSource, tr: &mut Trace, seg: u64) -> usize {
-    match sc.tr {
+    let r = catch_unwind(AssertUnwindSafe(|| match sc.tr {
         "virtio" => run_virtio(sc, src, tr, seg),
         "fusedev" => run_fusedev(sc, src, tr, seg),
         _ => unreachable!(),
+    }));
+    match r {
+        Ok(n) => n,
+        Err(_) => {
+            // whatever the library did made the harness itself give up on this scenario: recorded and judged
+            tr.emit(&json!({"e":"Abort","seg":seg,"op":"scenario"}));
+            tr.flush();
+            0
+        }
     }
 }
 
@@ -687,8 +781,22 @@ fn concretise(m: &Value, scale: usize, fuse_reader: bool, id: usize) -> (Scn, Ve
             let n = o["n"].as_u64().unwrap() as usize;
             let x = o["x"].as_u64().unwrap();
             let c = o["c"].as_u64().unwrap() as usize;
+            let name = if async_mode() {
+                match name {
+                    "write" => "async_write",
+                    "write_all" => "async_write_all",
+                    "write_vectored" => if j % 2 == 0 { "async_write2" } else { "async_write3" },
+                    "write_from_at" => "async_write_from_at",
+                    "read_to_at" => "async_read_to_at",
+                    "commit" => "async_commit",
+                    other => other,
+                }
+            } else {
+                name
+            };
             let (name, n) = match name {
                 "commit" => ("commit".to_string(), map_obj(n)),
+                "async_commit" => ("async_commit".to_string(), map_obj(n)),
                 // alternate between the obj and the slice flavour of the exact memory operations
                 "write_all" => ((if j % 2 == 0 { "write_obj" } else { "write_all" }).to_string(), n * scale),
                 _ => (name.to_string(), n * scale),
@@ -780,7 +888,16 @@ impl OpSource for RandomOps {
         let mut c = *rng.pick(&[0usize, 0, 0, 1, 7, 4096, 5000]);
         let v = rng.below(251) as u8;
         let mut n = pick_count(rng, l.avail);
-        let op: &str = if !l.writer {
+        let op: &str = if async_mode() && !finished && rng.chance(1, 2) {
+            if !l.writer {
+                *rng.pick(&["async_read_to_at", "async_read_to_at", "read", "split_at"])
+            } else {
+                *rng.pick(&[
+                    "async_write", "async_write2", "async_write3", "async_write_all", "async_write_from_at",
+                    "async_write_from_at", "async_commit", "split_at",
+                ])
+            }
+        } else if !l.writer {
             *rng.pick(&["read", "read", "read_obj", "read_obj", "read_to", "read_to_at", "read_exact_to", "split_at", "split_at"])
         } else if finished {
             "commit"
@@ -808,8 +925,8 @@ impl OpSource for RandomOps {
                     n = *rng.pick(&SIZES);
                 }
             }
-            "read_to_at" => x = rng.below((sc.sink_size - n.min(sc.sink_size)) as u64 + 1),
-            "write_from_at" => {
+            "read_to_at" | "async_read_to_at" => x = rng.below((sc.sink_size - n.min(sc.sink_size)) as u64 + 1),
+            "write_from_at" | "async_write_from_at" => {
                 x = match rng.below(5) {
                     0 => 0,
                     1 => 1,
@@ -818,13 +935,13 @@ impl OpSource for RandomOps {
                     _ => rng.below(sc.src_size as u64 + 1),
                 }
             }
-            "write_vectored" => x = rng.below(n as u64 + 1),
+            "write_vectored" | "async_write2" | "async_write3" => x = rng.below(n as u64 + 1),
             "split_at" => {
                 // fusedev writers split their whole window (written part included)
                 let room = if fuse && l.writer { l.avail + l.done } else { l.avail };
                 n = pick_count(rng, room);
             }
-            "commit" => {
+            "commit" | "async_commit" => {
                 let others: Vec<usize> = live.iter().filter(|o| o.writer && o.id != l.id).map(|o| o.id).collect();
                 n = if others.is_empty() || rng.chance(1, 3) { 0 } else { *rng.pick(&others) };
             }
@@ -917,7 +1034,7 @@ fn cmd_random(out: &str, steps: usize, seed: u64) {
     let mut fvs_steps = 0usize;
     while done < steps {
         seg += 1;
-        if seg % 4 == 0 {
+        if seg % 4 == 0 && !async_mode() {
             let k = fvs::run_random(&mut rng, &mut tr, seg, (steps - done).min(20));
             done += k;
             fvs_steps += k;
@@ -939,6 +1056,18 @@ fn main() {
     match args.get(1).map(|s| s.as_str()) {
         Some("replay") => cmd_replay(&args[2], &args[3]),
         Some("random") => cmd_random(&args[2], args[3].parse().unwrap(), seed),
+        Some("replay-async") | Some("random-async") if !cfg!(feature = "async") => {
+            eprintln!("this binary was built without the cargo feature `async`");
+            std::process::exit(2);
+        }
+        Some("replay-async") => {
+            ASYNC_MODE.store(true, std::sync::atomic::Ordering::Relaxed);
+            cmd_replay(&args[2], &args[3])
+        }
+        Some("random-async") => {
+            ASYNC_MODE.store(true, std::sync::atomic::Ordering::Relaxed);
+            cmd_random(&args[2], args[3].parse().unwrap(), seed)
+        }
         _ => {
             eprintln!("usage: transport replay <scenarios.ndjson> <trace.ndjson> | random <trace.ndjson> <steps>");
             std::process::exit(2);
